@@ -4,6 +4,7 @@
 use nom::{at, fld, suf, find, tagbyte, is_error, hex_len, hex_val, dig_len, Input, IResult};
 use vstd::std_specs::ops::*;
 use vstd::float::*;
+use vstd::std_specs::cmp::*;
 
 // ------------------------------------------------------------------------------------------
 // trusted language facts about IEEE-754 binary32 in Rust (listed in every evidence file):
@@ -19,8 +20,11 @@ pub mod f32ax {
 // std item without a vstd specification
 pub assume_specification<T: Ord>[ core::cmp::min ](a: T, b: T) -> (r: T)
     ensures r == a || r == b,
-        call_ensures(T::le, (&a, &b), true) ==> r == a,
-        call_ensures(T::le, (&a, &b), false) ==> r == b,
+        T::obeys_cmp_spec() ==> r == (if a.cmp_spec(&b) == core::cmp::Ordering::Greater { b } else { a }),
+;
+
+pub assume_specification<'a, T: Clone>[ <Vec<T> as core::convert::From<&'a [T]>>::from ](s: &[T]) -> (r: Vec<T>)
+    ensures r@.len() == s@.len(), forall|i: int| 0 <= i < s@.len() ==> cloned::<T>(#[trigger] s@[i], r@[i]), vstd::std_specs::vec::vec_clone_trigger(r, r),
 ;
 
 // ------------------------------------------------------------------------------------------
@@ -64,7 +68,8 @@ pub open spec fn sog_rel(x: u16, v: Option<f32>) -> bool { if x == 1023 { v is N
 /// course over ground, 1/10 degree, 3600 'not available'
 pub open spec fn cog_rel(x: u16, v: Option<f32>) -> bool { if x == 3600 { v is None } else { v is Some && f32_quot_u16(x, 10.0f32, v->Some_0) } }
 /// SAR aircraft speed, knots undivided, 1023 'not available'
-pub open spec fn sog_sar_rel(x: u16, v: Option<f32>) -> bool { if x == 1023 { v is None } else { v is Some && f32_of_u16(x, v->Some_0) } }
+/// (1022 means '1022 knots or higher' and is reported as exactly that)
+pub open spec fn sog_sar_rel(x: u16, v: Option<f32>) -> bool { if x == 1023 { v is None } else if x == 1022 { v == Some(1022.0f32) } else { v is Some && f32_of_u16(x, v->Some_0) } }
 /// type 27 speed (knots, 63 n/a) and course (degrees, 511 n/a), undivided
 pub open spec fn sog27_rel(x: u16, v: Option<f32>) -> bool { if x == 63 { v is None } else { v is Some && f32_of_u16(x, v->Some_0) } }
 pub open spec fn cog27_rel(x: u16, v: Option<f32>) -> bool { if x == 511 { v is None } else { v is Some && f32_of_u16(x, v->Some_0) } }
@@ -83,4 +88,23 @@ pub open spec fn leaf_ok<T>(data: (&[u8], usize), w: int, r: IResult<(&[u8], usi
     &&& (r is Ok ==> cur_ok(r->Ok_0.0) && r->Ok_0.0.0@.len() <= data.0@.len())
     &&& forall|orig: Seq<u8>, p: int| #[trigger] at(orig, data, p) ==>
         if 8 * orig.len() - p >= w { r is Ok && at(orig, r->Ok_0.0, p + w) } else { r is Err }
+}
+
+// ------------------------------------------------------------------------------------------
+// what `at` means, for the places that touch the bytes behind a cursor
+
+pub proof fn at_unfold(c: (&[u8], usize))
+    ensures forall|orig: Seq<u8>, p: int| #[trigger] at(orig, c, p) ==>
+        0 <= p <= 8 * orig.len() && c.0@ == orig.subrange(p / 8, orig.len() as int) && c.1 == p % 8,
+{
+    reveal(at);
+}
+
+/// a well-formed cursor stands at bit c.1 of its own buffer (start of every position chain)
+pub proof fn at_self(c: (&[u8], usize))
+    requires c.1 < 8, c.1 == 0 || c.0@.len() > 0,
+    ensures at(c.0@, c, c.1 as int),
+{
+    reveal(at);
+    assert(c.0@ =~= c.0@.subrange(0, c.0@.len() as int));
 }
